@@ -431,6 +431,26 @@ def table_writes(fn):
     return out
 
 
+def _helper_of_writers(P, f, mods):
+    from .. import normalise
+    inv = normalise.load_inventory()
+    if inv is None or f.qualname in inv or not f.name.startswith('_') \
+            or f.name.startswith('__'):
+        return False
+    callers = set()
+    for g in P.all_funcs(mods):
+        if g is f:
+            continue
+        for c in au.calls_in(g.node):
+            if au.call_name(c) == f.name:
+                owner = g.qualname
+                while owner not in ALLOWED_WRITERS and \
+                        owner.count('.') > 2:
+                    owner = owner.rsplit('.', 1)[0]
+                callers.add(owner)
+    return bool(callers) and callers <= set(ALLOWED_WRITERS)
+
+
 def r_writers(P, R):
     mods = {'dd.bdd', 'dd.autoref', 'dd._copy', 'dd.mdd', 'dd.dddmp',
             'dd._parser', 'dd._utils', 'dd._abc'}
@@ -447,6 +467,10 @@ def r_writers(P, R):
         n_w += len(ws)
         writers.add(owner)
         if owner in ALLOWED_WRITERS:
+            continue
+        # a private helper that the reference tree does not have, called
+        # only from writers of the tables, is part of those writers
+        if _helper_of_writers(P, f, mods):
             continue
         node, table, how = ws[0]
         R.violation(
@@ -511,117 +535,26 @@ def invmap_paths(R, f, scope, label, need_done=None):
 
 
 def r_invmap(P, R):
+    """The pairs of tables that must stay inverse of each other (`_succ` /
+    `_pred`, `vars` / `_level_to_var`) through every function that writes
+    them.  The first version of this rule followed the stores along the
+    paths of each writer; the benign rounds showed that to depend on how
+    the writer is laid out (loops, helpers, local aliases), and every
+    writer is now decided by the model of its function
+    (rules/models.py): `find_or_add`, `add_var` with `_init_terminal`,
+    `undeclare_vars`, `swap`."""
+    from . import models
     prop = R.prop
-    total = 0
     if prop in ('C02', 'C06'):
-        f = P.func('dd.bdd.BDD.find_or_add')
-        k = invmap_paths(R, f, f.node.body, 'find_or_add')
-        total += k
-        if k:
-            R.holds('R-INVMAP', f.qualname,
-                    f'{k} inserting path(s): _succ and _pred written as '
-                    'inverse entries')
-    if prop in ('C02', 'C14'):
-        f = P.func('dd.bdd.BDD._init_terminal')
-        k = invmap_paths(R, f, f.node.body, '_init_terminal')
-        total += k
-        pops = [c for c in au.calls_in(f.node, 'pop')
-                if au.chain(c.func.value) == ['self', '_pred']]
-        if k and pops:
-            R.holds('R-INVMAP', f.qualname, 'terminal moved in both maps, '
-                    'old unique-table entry removed')
-        elif not pops:
-            R.violation(
-                'R-INVMAP', 'stale-entry', f.qualname, '_pred.pop',
-                'the old unique-table entry of the terminal is not '
-                'removed when the terminal moves', unit=f.unit.rel,
-                line=f.lineno)
-        undeclare_rebuild(P, R)
-        total += 1
-    if prop in ('C02', 'C07'):
-        f = P.func('dd.bdd.BDD.swap')
-        loops = [n for n in f.node.body if isinstance(n, ast.For)]
-        storing = [lp for lp in loops if any(
-            sub_store(s, '_succ') for s in au.walk_no_defs(lp))]
-        if len(storing) != 3:
-            raise AnalysisError(
-                'dd.bdd.BDD.swap: expected three storing loops')
-        # the set of upper-level nodes already rewritten: the one the last
-        # loop skips (`if u in <set>: continue`)
-        third = storing[2]
-        skips = [n for n in au.walk_no_defs(third) if isinstance(n, ast.If)
-                 and any(isinstance(s, ast.Continue) for s in n.body)]
-        done_name = None
-        for n in skips:
-            t = n.test
-            if isinstance(t, ast.Compare) and len(t.ops) == 1 and \
-                    isinstance(t.ops[0], ast.In) and isinstance(
-                        t.comparators[0], ast.Name) and isinstance(
-                            t.left, ast.Name):
-                done_name = t.comparators[0].id
-        for i, lp in enumerate(storing):
-            # loop 1 relabels every node of the lower level; loop 2
-            # rewrites the upper-level nodes that do not depend on the
-            # lower variable and records them; loop 3 rewrites the rest
-            mode = ('must-store', f'store-iff-done:{done_name}',
-                    'must-store')[i]
-            k = invmap_paths(R, f, lp.body,
-                             f'swap loop at line {lp.lineno}', mode)
-            total += k
-            R.holds('R-INVMAP', f.qualname,
-                    f'loop at line {lp.lineno}: {k} storing path(s), '
-                    '_succ/_pred inverse, coverage '
-                    f'({mode or "n/a"})')
-        # the loop that skips must skip exactly the recorded nodes
-        node_var = third.target.elts[0].id if isinstance(
-            third.target, ast.Tuple) and isinstance(
-                third.target.elts[0], ast.Name) else None
-        ok_skip = len(skips) == 1 and done_name is not None and \
-            node_var is not None and au.is_name(skips[0].test.left, node_var)
-        if not ok_skip:
-            R.violation(
-                'R-INVMAP', 'done-set', f.qualname, 'skip',
-                'the last loop of swap does not skip exactly the nodes '
-                'already rewritten by the previous loop', unit=f.unit.rel,
-                line=third.lineno)
-        # unique-table entries of both levels are removed first
-        first = [lp for lp in loops if any(
-            au.call_name(c) == 'pop' and au.chain(c.func.value) == [
-                'self', '_pred'] for c in au.calls_in(lp))]
-        if not first or first[0].lineno > storing[0].lineno:
-            R.violation(
-                'R-INVMAP', 'stale-entry', f.qualname, '_pred.pop',
-                'swap no longer removes the unique-table entries of the '
-                'two levels before rewriting them', unit=f.unit.rel,
-                line=f.lineno)
-        else:
-            it = au.src(first[0].iter).replace(' ', '')
-            # after normalisation the loop over the literal pair (x, y)
-            # is unrolled: one popping loop per level
-            covered = set()
-            for lp in first:
-                for x in ast.walk(lp.iter):
-                    if isinstance(x, ast.Subscript) and isinstance(
-                            x.slice, ast.Name):
-                        covered.add(x.slice.id)
-            if it != '(x,y)' and not {'x', 'y'} <= covered:
-                R.violation(
-                    'R-INVMAP', 'stale-entry', f.qualname, 'levels',
-                    f'unique-table entries are removed for `{it}` instead '
-                    'of both levels (x, y)', unit=f.unit.rel,
-                    line=first[0].lineno)
-            else:
-                R.holds('R-INVMAP', f.qualname,
-                        'entries of both levels leave the unique table '
-                        'before the rewrite')
-        swap_order_maps(P, R)
-    if prop in ('C14',):
+        if not any('find_or_add model' in i['what'] for i in R.instances):
+            models.find_or_add_model(P, R)
+    if prop == 'C14':
         add_var_maps(P, R)
-        # the four views of the order must agree after a swap as well
-        swap_order_maps(P, R)
-        total += 1
-    floor = {'C02': 6, 'C06': 1, 'C07': 4, 'C14': 2}.get(prop, 0)
-    R.floor(f'R-INVMAP storing paths for {prop}', total, floor)
+    if prop in ('C02', 'C14'):
+        undeclare_rebuild(P, R)
+    if prop in ('C02', 'C07', 'C14'):
+        if not any('swap model' in i['what'] for i in R.instances):
+            models.swap_model(P, R)
 r_invmap.NAME = 'R-INVMAP'
 
 
@@ -643,83 +576,13 @@ def add_var_maps(P, R):
         models.add_var_model(P, R)
 
 
-def swap_order_maps(P, R):
-    f = P.func('dd.bdd.BDD.swap')
-    body = f.node.body
-    names = dict()     # local -> level it was read at
-    v_st, l_st = [], []
-    first_l2v = None
-    reads_after = False
-    for s in body:
-        if isinstance(s, ast.Assign) and isinstance(
-                s.value, ast.Call) and au.call_name(
-                    s.value) == 'var_at_level' and isinstance(
-                        s.targets[0], ast.Name):
-            names[s.targets[0].id] = au.src(s.value.args[0])
-            if first_l2v is not None:
-                reads_after = True
-        st = sub_store(s, 'vars')
-        if st:
-            v_st.append((au.src(st[0]), au.src(st[1])))
-        st = sub_store(s, '_level_to_var')
-        if st:
-            l_st.append((au.src(st[0]), au.src(st[1])))
-            if first_l2v is None:
-                first_l2v = s
-    problems = []
-    if sorted(v_st) != sorted((v, k) for k, v in l_st):
-        problems.append(f'vars stores {v_st} and _level_to_var stores '
-                        f'{l_st} are not inverse entries')
-    if reads_after:
-        problems.append('var_at_level is read after _level_to_var was '
-                        'already rewritten')
-    got = {(names.get(k, k), v) for k, v in v_st}
-    if got != {('x', 'y'), ('y', 'x')}:
-        problems.append(f'the variables at levels x and y do not exchange '
-                        f'levels: {sorted(got)}')
-    if problems:
-        R.violation('R-INVMAP', 'order-maps', f.qualname, 'vars',
-                    '; '.join(problems), unit=f.unit.rel, line=f.lineno)
-    else:
-        R.holds('R-INVMAP', f.qualname, 'the variables at x and y exchange '
-                'levels in both maps')
-
-
 # --------------------------------------------------------------- R-LEVELSET
 def levels_complete(P, R):
     """`_levels()` is the index that swap rewrites the tables from: it
-    lists EVERY node of the table under its level.  A filter (`continue`,
-    a conditional insertion) leaves nodes out, and swap then keeps their
-    unique-table entries under the old level."""
-    f = P.func('dd.bdd.BDD._levels')
-    loops = [lp for lp in au.walk_no_defs(f.node) if isinstance(
-        lp, ast.For) and au.chain(getattr(lp.iter, 'func', lp.iter)) and (
-            au.chain(getattr(lp.iter, 'func', lp.iter))[:2] == [
-                'self', '_succ'])]
-    if not loops:
-        R.undecided('R-LEVELSET', f.qualname, 'index of all nodes',
-                    'no loop over self._succ')
-        return
-    lp = loops[0]
-    skips = [x for x in au.walk_no_defs(lp) if isinstance(
-        x, (ast.Continue, ast.Break))]
-    adds = [s for s in lp.body if isinstance(s, ast.Expr) and isinstance(
-        s.value, ast.Call) and au.call_name(s.value) == 'add']
-    if skips or not adds:
-        R.violation(
-            'R-LEVELSET', 'index-incomplete', f.qualname, '_levels',
-            f'_levels() does not enter every node of the table into the '
-            'per-level index ('
-            + ('a `continue`/`break` skips some' if skips else
-               'the insertion is conditional')
-            + '): swap pops and rewrites the unique-table entries of the '
-            'listed nodes only, so an unlisted node (an unreferenced one, '
-            'say) keeps its old (level, low, high) key and collides with '
-            'a moved node', unit=f.unit.rel,
-            line=(skips[0].lineno if skips else lp.lineno))
-    else:
-        R.holds('R-LEVELSET', f.qualname,
-                'every node of the table is entered under its level')
+    lists EVERY node of the table under its level - decided on the
+    levels model (rules/models.py)."""
+    from . import models
+    models.levels_model(P, R)
 
 
 def r_levelsets(P, R):
